@@ -54,6 +54,17 @@ type Plan struct {
 	// the records; returns additional mismatches.
 	Behaviour func(p *Plan, recs []Rec) ([]Mismatch, *TLCResult, error)
 	ExtraCoverage map[string]any
+	// Stages: additional (or alternative) batches of cases, each evaluated by its own
+	// module / environment (e.g. one per fixture schema).
+	Stages []Stage
+}
+
+// Stage is one batch of cases with its evaluator.
+type Stage struct {
+	Name    string
+	EvalMod string
+	EvalEnv map[string]string
+	Cases   func(emit func(Case))
 }
 
 // Mismatch is a record the specification does not allow.
@@ -112,7 +123,15 @@ func EvalRecords(module string, env map[string]string, recs []Rec) ([]Mismatch, 
 		return nil, 0, nil
 	}
 	t0 := time.Now()
-	const chunk = 25000
+	// JVM start costs ~2.5 s: few large chunks for cheap records, up to 12 parallel
+	// chunks for expensive ones
+	chunk := len(recs)/12 + 1
+	if chunk < 800 {
+		chunk = 800
+	}
+	if chunk > 25000 {
+		chunk = 25000
+	}
 	type job struct{ lo, hi int }
 	var jobs []job
 	for lo := 0; lo < len(recs); lo += chunk {
@@ -127,7 +146,7 @@ func EvalRecords(module string, env map[string]string, recs []Rec) ([]Mismatch, 
 		err error
 	}
 	out := make([]res, len(jobs))
-	sem := make(chan struct{}, 8)
+	sem := make(chan struct{}, 12)
 	done := make(chan int, len(jobs))
 	for ji, j := range jobs {
 		go func(ji int, j job) {
@@ -226,6 +245,15 @@ func canon(v any) string {
 	return string(b)
 }
 
+// brief is canon truncated for log lines.
+func brief(v any) string {
+	s := canon(v)
+	if len(s) > 700 {
+		return s[:700] + "…"
+	}
+	return s
+}
+
 // Matches reports whether finding f covers mismatch m of property prop.
 func (f Finding) Matches(prop string, m Mismatch) bool {
 	if f.Status != "known" || f.Property != prop || f.Class != m.Class {
@@ -322,32 +350,48 @@ func Run(p *Plan) int {
 	cov["states"] = states
 	cov["transitions"] = transitions
 
-	// cases
-	var cases []Case
+	// cases, per stage
+	stages := append([]Stage{}, p.Stages...)
 	if p.Cases != nil {
-		p.Cases(func(c Case) { cases = append(cases, Normalize(c)) })
+		stages = append([]Stage{{Name: "main", EvalMod: p.EvalMod, EvalEnv: p.EvalEnv, Cases: p.Cases}}, stages...)
 	}
+	var cases []Case
 	var recs []Rec
-	tExec := time.Now()
-	if p.Isolated {
-		var err error
-		recs, err = RunIsolated(cases, p.CaseTimeout)
+	var mm []Mismatch
+	for si, st := range stages {
+		var scases []Case
+		st.Cases(func(c Case) { scases = append(scases, Normalize(c)) })
+		tExec := time.Now()
+		var srecs []Rec
+		if p.Isolated {
+			var err error
+			srecs, err = RunIsolated(scases, p.CaseTimeout)
+			if err != nil {
+				logf("INCONCLUSIVE: worker supervision failed: %v", err)
+				return 2
+			}
+		} else {
+			for _, c := range scases {
+				srecs = append(srecs, ExecCase(c)...)
+			}
+		}
+		for _, r := range srecs {
+			r["stage"] = si
+		}
+		logf("stage %s: executed %d cases -> %d records in %.1fs", st.Name, len(scases), len(srecs), time.Since(tExec).Seconds())
+		smm, evalWall, err := EvalRecords(st.EvalMod, st.EvalEnv, srecs)
 		if err != nil {
-			logf("INCONCLUSIVE: worker supervision failed: %v", err)
+			logf("INCONCLUSIVE: %v", err)
 			return 2
 		}
-	} else {
-		for _, c := range cases {
-			recs = append(recs, ExecCase(c)...)
+		logf("stage %s: TLC evaluated %d records in %.1fs: %d not allowed by the specification", st.Name, len(srecs), evalWall.Seconds(), len(smm))
+		for i := range smm {
+			smm[i].Index += len(recs)
 		}
+		cases = append(cases, scases...)
+		recs = append(recs, srecs...)
+		mm = append(mm, smm...)
 	}
-	logf("executed %d cases -> %d records in %.1fs", len(cases), len(recs), time.Since(tExec).Seconds())
-	mm, evalWall, err := EvalRecords(p.EvalMod, p.EvalEnv, recs)
-	if err != nil {
-		logf("INCONCLUSIVE: %v", err)
-		return 2
-	}
-	logf("TLC evaluated %d records in %.1fs: %d not allowed by the specification", len(recs), evalWall.Seconds(), len(mm))
 	var behaviourRes *TLCResult
 	if p.Behaviour != nil {
 		bm, br, err := p.Behaviour(p, recs)
@@ -360,7 +404,7 @@ func Run(p *Plan) int {
 	}
 	for _, m := range mm {
 		if strings.HasPrefix(m.Class, "harness-") {
-			logf("INCONCLUSIVE: harness produced a malformed record (%s): %s", m.Class, canon(m.Rec))
+			logf("INCONCLUSIVE: harness produced a malformed record (%s): %s", m.Class, brief(m.Rec))
 			return 2
 		}
 	}
@@ -417,10 +461,28 @@ func Run(p *Plan) int {
 				again = append(again, ExecCase(c)...)
 			}
 		}
-		mm2, _, err := EvalRecords(p.EvalMod, p.EvalEnv, again)
-		if err != nil {
-			logf("INCONCLUSIVE: re-evaluation failed: %v", err)
-			return 2
+		stageOf := map[string]int{}
+		for _, m := range unknown {
+			if c, _ := m.Rec["case"].(Case); c != nil {
+				si, _ := m.Rec["stage"].(int)
+				stageOf[caseKey(c)] = si
+			}
+		}
+		var mm2 []Mismatch
+		for si, st := range stages {
+			var part []Rec
+			for _, r := range again {
+				c, _ := r["case"].(Case)
+				if stageOf[caseKey(c)] == si {
+					part = append(part, r)
+				}
+			}
+			x, _, err := EvalRecords(st.EvalMod, st.EvalEnv, part)
+			if err != nil {
+				logf("INCONCLUSIVE: re-evaluation failed: %v", err)
+				return 2
+			}
+			mm2 = append(mm2, x...)
 		}
 		if p.Behaviour != nil {
 			bm, _, err := p.Behaviour(p, again)
@@ -437,7 +499,7 @@ func Run(p *Plan) int {
 		for _, m := range unknown {
 			c, _ := m.Rec["case"].(Case)
 			if c == nil || !repro[caseKey(c)+"|"+m.Class] {
-				logf("INCONCLUSIVE: mismatch %s could not be reproduced from its case: %s", m.Class, canon(m.Rec))
+				logf("INCONCLUSIVE: mismatch %s could not be reproduced from its case: %s", m.Class, brief(m.Rec))
 				if exit == 0 {
 					exit = 2
 				}
